@@ -58,7 +58,7 @@ for name, f, pat, rep, checks in B:
     open(p, "w").write(s2)
     for c in checks:
       t0 = time.time()
-      r = subprocess.run(["./check", c, "--tier", "quick"], cwd="/verif", env=dict(os.environ, VERIF_REPO=W), capture_output=True, text=True)
+      r = subprocess.run(["./check", c, "--tier", "quick"], cwd="/verif", env=dict(os.environ, VERIF_REPO=W, VERIF_EVIDENCE_DIR="/tmp/wt/reg_evidence"), capture_output=True, text=True)
       out = [l for l in r.stdout.splitlines() if not l.startswith("KNOWN-FINDING")]
       wit = next((l.strip() for l in out if l.strip().startswith("witness")), "")
       verdict = "CAUGHT" if r.returncode == 1 else ("inconclusive" if r.returncode == 2 else "MISSED")
